@@ -11,9 +11,8 @@ rsync -a --exclude .git --exclude '*.pyc' --exclude __pycache__ "${VERIF_BASE:-/
 cd "$(dirname "$0")/.."
 for P in "$@"; do
   cp -f evidence/$P.json /tmp/.ev-$P-$$.json 2>/dev/null
-  VERIF_REPO="$D" ./run.sh "$P" "$TIER" 2>&1 | grep -E "VIOLATION|KNOWN-FINDING|HARNESS|exit=|bucket" | cut -c1-400
+  VERIF_REPLAY_OUT="$D/.replays" VERIF_REPO="$D" ./run.sh "$P" "$TIER" 2>&1 | grep -E "VIOLATION|KNOWN-FINDING|HARNESS|exit=|bucket" | cut -c1-400
   mv -f /tmp/.ev-$P-$$.json evidence/$P.json 2>/dev/null
-  # replays written while testing a mutant are not kept
-  git -C "$(pwd)" status --porcelain replays | grep '^??' | awk '{print $2}' | xargs -r rm -rf
+  # replays written while testing a mutant go to $D/.replays and vanish with the copy
 done
 rm -rf "$D"
